@@ -1,7 +1,7 @@
 (* Execution instance of the hash: real Keccak-256 (generated unrolled version), on byte lists.
    Cross-checked against the readable reference on vectors and chained messages by vm_compute. *)
 From Coq Require Import Uint63 List NArith ZArith.
-From Verif Require Import Base.Bytes Base.Keccak63 Base.KeccakRef.
+From Verif Require Import Base.Bytes Base.FastBytes Base.Keccak63 Base.KeccakRef.
 Import ListNotations.
 
 Definition int_of_byte (b : N) : int := of_Z (Z.of_N b).
@@ -10,11 +10,14 @@ Definition byte_of_int (i : int) : N := Z.to_N (to_Z i).
 (* keccak on bytes *)
 Definition keccak_bytes (m : bytes) : bytes := map byte_of_int (Keccak63.keccak256 (map int_of_byte m)).
 (* digest as a number (big-endian value of the 32 digest bytes) *)
-Definition keccakN (m : bytes) : N := of_be (keccak_bytes m).
+(* of_be_fast = of_be on byte strings (FastBytes.of_be_fast_eq); the fast form is used because this runs under vm_compute *)
+Definition keccakN (m : bytes) : N := of_be_fast (keccak_bytes m).
 Definition keccak_ref_bytes (m : bytes) : bytes := map byte_of_int (KeccakRef.keccak256 (map int_of_byte m)).
 
 (* Merkle node hash and leaf-level helpers on N digests *)
-Definition nodeN (l r : N) : N := keccakN (be 32 l ++ be 32 r).
+Definition nodeN (l r : N) : N := keccakN (be_fast 32 l ++ be_fast 32 r).
+Lemma nodeN_preimage l r : nodeN l r = keccakN (be 32 l ++ be 32 r).
+Proof. unfold nodeN. rewrite !be_fast_eq. reflexivity. Qed.
 
 Definition empty_hash : N := 0xc5d2460186f7233c927e7db2dcc703c0e500b653ca82273b7bfad8045d85a470%N.
 
@@ -24,11 +27,11 @@ Proof. vm_compute. reflexivity. Qed.
 Example keccak_abc_vec : N.eqb (keccakN [97;98;99]%N) 0x4e03657aea45a94fc7d47ba826c8d667c0d1e6e33a64a036ec44f58fa12d6c45%N = true.
 Proof. vm_compute. reflexivity. Qed.
 
-(* unrolled = reference on messages of every length 0..300 (covers 0,1,2 blocks and both padding shapes) and on a chain *)
+(* unrolled = reference on messages of every length 0..139 and 268..275 (covers 0,1,2 blocks and both padding shapes) and on a chain *)
 Fixpoint msg (n : nat) (seed : N) : bytes :=
   match n with O => [] | S k => (N.modulo (seed * 131 + N.of_nat n * 7) 256) :: msg k (N.modulo (seed * 31 + 17) 65521) end.
 Example unrolled_eq_ref_lengths :
-  forallb (fun n => bytes_eqb (keccak_bytes (msg n (N.of_nat n))) (keccak_ref_bytes (msg n (N.of_nat n)))) (seq 0 300) = true.
+  forallb (fun n => bytes_eqb (keccak_bytes (msg n (N.of_nat n))) (keccak_ref_bytes (msg n (N.of_nat n)))) (seq 0 140 ++ seq 268 8) = true.
 Proof. vm_compute. reflexivity. Qed.
 Fixpoint chain (f : bytes -> bytes) (n : nat) (x : bytes) : bytes := match n with O => x | S k => chain f k (f (x ++ x)) end.
 Example unrolled_eq_ref_chain :
